@@ -1,9 +1,13 @@
 import Martian.Lemmas.Har
+import Martian.Props.C16.Headers
+import Martian.Props.C16.Json
+import Martian.Props.C16.Facts
 /-!
 C16 — HAR entries faithfully describe the exchange and survive a JSON round trip.
 Only property theorems and non-vacuity examples live here.
 Quantifiers: every message, every capture option, every body byte string; the trusted parsers
-(media type, form/multipart parameters, gzip/flate, JSON string escaping) are parameters.
+(media type, form/multipart parameters, gzip/flate) are parameters; the JSON string coder is the
+concrete model of `encoding/json` (`Props/C16/Json.lean`).
 -/
 namespace Martian.Props.C16
 open Martian Martian.Go Martian.MessageView Martian.Har
@@ -146,50 +150,7 @@ theorem uncaptured_has_no_body (pp : Bytes → Bytes → Option (List Param)) (i
     simp only [logResponse, hc, newResponse] at h
     simp at h; subst h; simp
 
-/-- JSON round trip of post data, for ALL body byte strings: valid UTF-8 goes as text, anything
-else as base64, and both read back exactly. Hypotheses: `encoding/json` reads back the valid-UTF-8
-strings it wrote; media type and parameters are valid UTF-8 (see the open finding F16b for
-parameters that are not). -/
-theorem postdata_json_roundtrip (enc : Bytes → Bytes) (dec : Bytes → Option Bytes)
-    (hj : ∀ s, utf8Valid s = true → dec (enc s) = some s) (p : PostData)
-    (hm : utf8Valid p.mime = true)
-    (hp : ∀ q ∈ p.params, utf8Valid q.name = true ∧ utf8Valid q.value = true ∧
-      utf8Valid q.fileName = true ∧ utf8Valid q.contentType = true) :
-    unmarshalPD dec (marshalPD enc p) = some p := by
-  have hparams : (p.params.map (marshalParam enc)).mapM (unmarshalParam dec) = some p.params := by
-    have : ∀ l : List Param, (∀ q ∈ l, utf8Valid q.name = true ∧ utf8Valid q.value = true ∧
-        utf8Valid q.fileName = true ∧ utf8Valid q.contentType = true) →
-        (l.map (marshalParam enc)).mapM (unmarshalParam dec) = some l := by
-      intro l
-      induction l with
-      | nil => intro _; rfl
-      | cons q qs ih =>
-        intro h
-        obtain ⟨h1, h2, h3, h4⟩ := h q (by simp)
-        simp [List.mapM_cons, unmarshalParam, marshalParam, hj _ h1, hj _ h2, hj _ h3, hj _ h4,
-          ih (fun x hx => h x (by simp [hx]))]
-    exact this _ hp
-  have hb64 := base64Tok_valid
-  unfold marshalPD
-  split
-  · rename_i hv
-    simp [unmarshalPD, hj _ hm, hj _ hv, hparams]
-    intro h; rw [base64Tok_eq] at h; simp at h
-  · have ha := utf8Valid_of_ascii _ (b64Encode_ascii p.text)
-    simp [unmarshalPD, hj _ hm, hj _ ha, hj _ hb64, hparams, b64_roundtrip]
-
-/-- JSON round trip of response content as the logger produces it (always base64): exact for
-ALL byte strings. -/
-theorem content_json_roundtrip (enc : Bytes → Bytes) (dec : Bytes → Option Bytes)
-    (hj : ∀ s, utf8Valid s = true → dec (enc s) = some s) (c : Content)
-    (hm : utf8Valid c.mime = true) (hb : c.base64 = true) :
-    unmarshalContent dec (marshalContent enc c) = some c := by
-  have hb64 := base64Tok_valid
-  have ha := utf8Valid_of_ascii _ (b64Encode_ascii c.text)
-  cases c
-  simp_all [marshalContent, unmarshalContent, b64_roundtrip]
-
-/-- …and every response the model logs has base64 content (so the previous theorem applies). -/
+/-- …and every response the model logs has base64 content (so `content_json_roundtrip` applies). -/
 theorem logged_content_is_base64 (infl : Bytes → Bytes → Option Bytes) (wb : Bool) (m : Msg) (r : Response)
     (h : newResponse infl wb m = some r) : r.content.base64 = true := by
   unfold newResponse at h
@@ -201,9 +162,7 @@ theorem logged_content_is_base64 (infl : Bytes → Bytes → Option Bytes) (wb :
     rfl
   · simp at hc; subst hc; rfl
 
--- non-vacuity: the JSON hypotheses are satisfiable (identity coding) and both branches occur
-example : ∃ (enc : Bytes → Bytes) (dec : Bytes → Option Bytes), ∀ s, utf8Valid s = true → dec (enc s) = some s :=
-  ⟨id, some, fun _ _ => rfl⟩
+-- non-vacuity: both branches of the text-or-base64 choice occur
 example : utf8Valid (strBytes "abc") = true ∧ utf8Valid [0xff, 0xfe] = false := by decide
 example : b64Encode (strBytes "Man") = strBytes "TWFu" ∧ b64Encode (strBytes "Ma") = strBytes "TWE=" := by decide
 
